@@ -135,7 +135,9 @@ Fixpoint run_altarc (L : nat) (l : altarc) (s : nb * nb) (ops : list aop) : list
 Inductive sop :=
 | SPush (v : vqip) (ot : option (list nat)) | SPull (q : Q) (ot : option (list nat))
 | SPushCheck (ov : option Q) (ot : option (list nat)) | SPullCheck (ov : option Q) (ot : option (list nat))
-| SEnd.
+| SEnd
+(* the network grows: a new arc is connected to a node that has already been used (Arc.__init__ registers it) *)
+| SAddOut (x : sarc (nb * nb)) | SAddIn (x : sarc (nb * nb)).
 Definition nstar := star (nb * nb).
 Definition enc_star (st : nstar) : list Z :=
   flat_map (fun x => enc_arc (sa_a _ x) ++ enc_nb (fst (sa_s _ x)) ++ enc_nb (snd (sa_s _ x))) st.
@@ -156,6 +158,8 @@ Definition star_step (maxiter : nat) (outs ins : nstar) (o : sop) : option (nsta
   | SPushCheck ov ot => Some (outs, ins, ev (check_basic _ nbport true ot outs ov))
   | SPullCheck ov ot => Some (outs, ins, ev (check_basic _ nbport false ot ins ov))
   | SEnd => Some (end_star outs, end_star ins, [])
+  | SAddOut x => Some (outs ++ [x], ins, [])
+  | SAddIn x => Some (outs, ins ++ [x], [])
   end.
 Fixpoint run_star (maxiter : nat) (outs ins : nstar) (ops : list sop) : list Z :=
   match ops with
